@@ -112,20 +112,27 @@ CLAIM = dict(
           "code (no public way to change it). [8 non-termination] every implementation call runs under "
           "common.cpu_limit (2 s per probe, 6 s per derivation bundle, quartered after 3 hangs) and a datagram budget; a "
           "call that does not return is `did-not-return` (the Lean models are total). "
-          "WHICH CORES ANSWER: in the machine specification (Lean `coreAnswers`, theorem monitor_always_answers) and in "
-          "the simulator that takes its list of states from it, a command addressed to core p of a chip is answered by "
-          "the monitor when p = 0 and otherwise only while SARK's event handling is alive on that core: states wait, "
-          "c_main, run, sync0, sync1, pause (a core that reports a software version counts as running). idle, dead, "
-          "power_down, watchdog, runtime_exception and - the cautious reading of consts.AppState - the transitory init "
-          "and the finished exit state get NO reply (the controller's timeout SCPError). Every probe in scope must "
+          "WHICH CORES ANSWER - an ASSUMPTION of the machine specification, taken from the SARK / SC&MP documentation of "
+          "the application states (consts.AppState), not something rig's code states: in the specification (Lean "
+          "`coreAnswers`, theorem monitor_always_answers) and in the simulator that takes its list of states from it, a "
+          "command addressed to core p of a chip is answered by the monitor (SC&MP) when p = 0 and otherwise only while "
+          "SARK's event handling is alive on that core. ANSWERING states: wait (5), c_main (6), run (7), sync0 (8), sync1 "
+          "(9), pause (10); a core that reports a software version counts as running. NOT answering: dead (0), power_down "
+          "(1), runtime_exception (2), watchdog (3), idle (15) and - the cautious reading - the transitory init (4) and "
+          "the finished exit (11): they get NO reply (the controller's timeout SCPError). Every probe in scope must "
           "still return the machine's values for cores in EVERY state: checked for get_processor_status, get_iobuf / "
           "get_iobuf_bytes, read_vcpu_struct_field, read_struct_field, get_router_diagnostics, get_p2p_routing_table, "
           "get_chip_info, get_system_info in all streams (core states of the status block, the info reply and the "
           "simulator agree). Explicitly addressed cores (read_struct_field(p=), get_software_version(processor=)) are "
-          "only cores that answer. KNOWN LIMIT kept out of the generators (reported): when the core number is supplied "
-          "through the CONTEXT (`with mc(x=, y=, p=)`), rig's internal reads pick it up and go to that core, so every "
-          "probe inside such a context times out for cores that do not answer; the context carries p only for cores "
-          "that answer (environment C14_CTX_ANY_CORE=1 lifts the restriction). FULL RANGE: every 32-bit quantity read "
+          "only cores that answer. KNOWN FINDING `probe-in-core-context-times-out`: when the core number is supplied "
+          "through the CONTEXT (`with mc(x=, y=, p=)`), rig's internal reads of sv.vcpu_base / sv.iobuf_size / the vcpu "
+          "block / the console blocks pick it up and go to that core instead of the monitor, so the probe times out for "
+          "cores that do not answer. ONE fixed case reproduces it on every run (chip (3, 0), core 4 idle, "
+          "get_processor_status inside `with mc(x=3, y=0, p=4)` vs. with explicit arguments); the key is used only there, "
+          "only when the explicit probe is right and datagrams addressed to the idle core went unanswered. The generators "
+          "stay away from it (the context carries p only for cores that answer; C14_CTX_ANY_CORE=1 lifts that), so any "
+          "other failure - e.g. an internal read sent to core p although p was given explicitly - keeps its own key. "
+          "FULL RANGE: every 32-bit quantity read "
           "back (router counters, registers, psr/sp/lr, mailbox words, file / line / time, user words, free SDRAM / SRAM, "
           "block time / ms / length, sv words, IOBUF block addresses on both sides of 2**31) and every 16- / 8-bit field is "
           "drawn over its full range with the edges 0, 1, 2**(k-1) - 1, 2**(k-1), 2**k - 1; a negative number in a result "
@@ -1969,7 +1976,73 @@ def judge_derive(ctx, c, w):
     ctx.case(c, nontriv)
 
 
+def context_core_case():
+    """the ONE fixed case of the known finding `probe-in-core-context-times-out`: chip (3, 0), core 4 idle (nothing
+    was ever loaded on it: certainly nothing answers there), its status block read once with explicit arguments and
+    once with the core number supplied through the controller's context"""
+    import random
+    c = gen_core(random.Random(20140314), size=16, session=True)
+    c["status"]["cpu_state"] = IDLE
+    c.update(kind="context_core", x=3, y=0, p=4, buf=256)
+    return c
+
+
+def eval_context_core(ctx, c):
+    L = lambda op, **kw: dict(kw, suite="c14", op=op)  # noqa: E731
+    spec = ctx.lean([L("spec_core", **{f: c[f] for f in CORE_FIELDS})])[0]
+    x, y, p = c["x"], c["y"], c["p"]
+    results = {}
+    for how in ("explicit", "context"):
+        m = ProbeMachine(buffer_size=c["buf"])
+        for addr, data in spec["mem"]:
+            m.poke(x, y, addr, bytes(data))
+        m.core_state[(x, y, p)] = c["status"]["cpu_state"]
+        budget = Budget(machine=m)
+        net = simnet.Net(m.handle, budget)
+        with simnet.installed(net):
+            mc = new_controller(net, 0, 2, 1.0)
+
+            def probe():
+                if how == "explicit":
+                    return status_json(mc.get_processor_status(p, x, y))
+                with mc(x=x, y=y, p=p):
+                    return status_json(mc.get_processor_status())
+            results[how] = guard(lambda: limited(probe))
+        results[how + "_unanswered"] = m.unanswered
+        ctx.traces += 1
+    model, o1, o2 = ctx.lean([L("status", mem=spec["mem"], p=p)] + [
+        L("core_ok", status=c["status"], blocks=c["blocks"], diag=c["diag"],
+          got_status=results[h].get("ok") if nat_ok(results[h].get("ok")) else None) for h in ("explicit", "context")])
+    right = {h: "ok" in results[h] and nat_ok(results[h]["ok"]) and o.get("status") is True
+             for h, o in (("explicit", o1), ("context", o2))}
+    cmp(ctx, "context_core.explicit", results["explicit"], model, c)
+    if not right["explicit"]:
+        # not the known finding: the probe is wrong even with explicit arguments - it keeps its own key
+        ctx.violation(err_key(results["explicit"]["err"]) if "err" in results["explicit"] else "status-wrong",
+                      "get_processor_status(%d, %d, %d) of an idle core returned %.300r" % (p, x, y, results["explicit"]), c)
+    elif not right["context"] and results["context_unanswered"] > 0:
+        ctx.tag("context_core_times_out")
+        ctx.violation("probe-in-core-context-times-out",
+                      "with mc(x=%d, y=%d, p=%d): mc.get_processor_status() returned %.200r for an idle core (state %d: "
+                      "nothing answers commands there; %d datagrams were addressed to it and got no reply), while "
+                      "get_processor_status(%d, %d, %d) with explicit arguments returns the machine's values: the core "
+                      "number taken from the context also reaches rig's internal reads of sv.vcpu_base and of the vcpu "
+                      "block, which must go to the monitor (core 0)" % (
+                          x, y, p, results["context"], c["status"]["cpu_state"], results["context_unanswered"], p, x, y), c)
+    elif not right["context"]:
+        ctx.violation(err_key(results["context"].get("err", "")) if "err" in results["context"] else "status-wrong",
+                      "with mc(x=%d, y=%d, p=%d): mc.get_processor_status() returned %.300r although every datagram was "
+                      "answered" % (x, y, p, results["context"]), c)
+    else:
+        ctx.tag("context_core_right")
+    ctx.case(c, True)
+
+
 def eval_cases(ctx, cases):
+    for c in [c for c in cases if c["kind"] == "context_core"]:
+        ensure_answering(ctx)
+        eval_context_core(ctx, c)
+    cases = [c for c in cases if c["kind"] != "context_core"]
     for c in [c for c in cases if c["kind"] == "histories"]:
         # a replay that carries the histories that ran before the failing one in the same process
         for sub in c["cases"]:
@@ -2334,6 +2407,7 @@ def run(ctx):
         cases = gen_cases(ctx, 180 * k, 6 * k, 120 * k, 300 * k, 120 * k, 150 * k, 230 * k, 130 * k)
     else:
         cases = gen_cases(ctx, 3000 * k, 60 * k, 2400 * k, 6000 * k, 2400 * k, 3000 * k, 4000 * k, 2400 * k)
+    eval_cases(ctx, [context_core_case()])      # the fixed case of the known finding probe-in-core-context-times-out
     plain = [c for c in cases if c["kind"] not in ("session", "derive")]
     hist = [c for c in cases if c["kind"] in ("session", "derive")]
     for i in range(0, len(plain), 400):
